@@ -5,6 +5,7 @@
 #include <spec/x690.h>
 #define VF_CB_CAP 12
 #include <vf_cb.h>
+#include <vf_alloc.h>
 #include "oer_support.c"
 #include "INTEGER.c"
 #include "INTEGER_oer.c"
@@ -59,6 +60,7 @@ void h_INTEGER_decode_oer(void) {
 	VF_CANARY();
 	__CPROVER_assert((rv.code == RC_OK || rv.code == RC_WMORE || rv.code == RC_FAIL) && rv.consumed <= size, "C04: code and consumed <= size");
 	if(rv.code == RC_WMORE) __CPROVER_assert(rv.consumed == 0, "C05: starved decode consumes nothing");
+	__CPROVER_assert(vf_alloc_peak_request <= size + 64, "C15: the decoder never asks the allocator for more than the input size plus a constant");
 	if(rv.code == RC_OK) __CPROVER_assert(sptr && ((INTEGER_t *)sptr)->buf && ((INTEGER_t *)sptr)->buf[((INTEGER_t *)sptr)->size] == 0, "C04: result is a NUL-terminated INTEGER");
 	if(sptr) { free(((INTEGER_t *)sptr)->buf); free(sptr); }
 }
